@@ -284,6 +284,8 @@ def check_plain(case, ctx):
              [f'plain:where={where}', f'plain:class={want}', f'plain:dims={dims}',
               f'plain:type={"none" if t is None else t["base"].split(":")[0]}{"+shape" if t and t.get("shape") else ""}'])
     tag = f'{where}{":respelled" if respell else ""}'
+    src = {'own': 'own-scope', 'own-shadows-parent': 'own-scope', 'deferred-shadows-parent': 'own-scope', 'parent': 'enclosing-scope',
+           'grandparent': 'enclosing-scope', 'kw': 'type-kw', 'kw-overrides-own': 'type-kw', 'kw-noscope': 'type-kw'}.get(where, 'no-type')
     try:
         var = sym.Variable(**kw)
     except Exception as e:  # noqa: the factory is total on this domain
@@ -292,11 +294,11 @@ def check_plain(case, ctx):
     got = type(var).__name__
     if got != want:
         tdesc = 'no-type' if t is None else t['base'].split(':')[0] + ('+shape' if t.get('shape') else '')
-        return ctx.fail(f'C13:Variable:class:{want}-expected-got-{got}:type-from-{where}', case,
+        return ctx.fail(f'C13:Variable:class:{want}-expected-got-{got}:type-from-{src}', case,
                         f'Variable({use!r}, dims={dims}) with {tdesc} recorded [{tag}] -> {got}, documented tier -> {want}')
     seen = describe_type(var.type)
     if seen != norm(t if t is not None else DEFERRED):
-        return ctx.fail(f'C13:Variable:type:wrong-type-seen:type-from-{where}', case, f'var.type -> {seen}, recorded {norm(t)} [{tag}]')
+        return ctx.fail(f'C13:Variable:type:wrong-type-seen:type-from-{src}', case, f'var.type -> {seen}, recorded {norm(t)} [{tag}]')
     if where in ('kw', 'kw-overrides-own'):
         rec = describe(scope.symbol_attrs.lookup(name, recursive=False))
         if rec != norm(t):
@@ -315,7 +317,7 @@ def check_plain(case, ctx):
     carried = len(var.dimensions) if want == 'Array' and var.dimensions else 'absent'
     want_c = expected_class(use, t, carried)
     if type(c).__name__ != want_c or describe_type(c.type) != seen:
-        return ctx.fail(f'C13:clone():class-or-type-not-preserved:{want}', case,
+        return ctx.fail('C13:clone():class-or-type-not-preserved', case,
                         f'{got}.clone() -> {type(c).__name__} type {describe_type(c.type)}; original type {seen}, expected class {want_c}')
     return None
 
@@ -402,7 +404,7 @@ def check_member(case, ctx):
         return ctx.fail(f'C13:Variable(member):raises:{exc_bucket(e)}', case, repr(e))
     got = type(var).__name__
     if got != want:
-        return ctx.fail(f'C13:Variable(member):class:{want}-expected-got-{got}:type-from-{how}:parent-{given}', case,
+        return ctx.fail(f'C13:Variable(member):class:{want}-expected-got-{got}:type-from-{how}', case,
                         f'Variable({use!r}, dims={dims}), root p is {root} in {rwhere} scope, own entry {entry} -> {got}, expected {want} (type {t})')
     seen = describe_type(seen_t)
     exp = norm(t if t is not None else DEFERRED)
@@ -415,7 +417,7 @@ def check_member(case, ctx):
     else:
         ok = seen == exp
     if not ok:
-        return ctx.fail(f'C13:Variable(member):type:wrong-type-seen:type-from-{how}:parent-{given}', case, f'var.type -> {seen}, expected {exp}')
+        return ctx.fail(f'C13:Variable(member):type:wrong-type-seen:type-from-{how}', case, f'var.type -> {seen}, expected {exp}')
     if given == 'object' and var.name.lower() != full.lower():
         return ctx.fail('C13:Variable(member):name', case, f'name {var.name!r}')
     return None
@@ -690,7 +692,7 @@ class ExecH:
             got = describe_type(_call(lambda: rec['obj'].type))
             if got != want:
                 if rec['scope'] is None:
-                    nature = 'unattached-symbol-type-changed'
+                    nature = 'unattached-symbol-does-not-report-its-own-type'
                 else:
                     nature = 'attached-symbol-does-not-see-recorded-type'
                 self.fail(op, nature, f'after {last}: symbol #{j} {rec["name"]!r} (scope {rec["scope"]}) has type {got}, model {want}')
@@ -840,7 +842,7 @@ def run_shard(ctx):
     before = set(ctx.failures)
     init, rules = _history_strategies(ctx.thorough)
     machine = _make_machine(ctx, init, rules)
-    n = ctx.scale(5000, 100000)
+    n = ctx.scale(8000, 120000)
     run_state_machine_as_test(hypothesis.seed(derive_seed(ctx.seed, 'history'))(machine),
                               settings=ctx.settings(n, stateful_step_count=40 if ctx.thorough else 20))
     _minimise(ctx, before)
